@@ -1,7 +1,7 @@
 META = dict(
     engine='cosched+seqx',
     technique='stateless model checking: preemption-bounded exhaustive schedule enumeration (CHESS) of concurrent schedule/select on the 11 real scheduler modules over borrowed execution streams of a parsec_init context; plus bounded-exhaustive schedule/select sequences with buffer overflow',
-    level_text='For each of the 11 scheduler modules (selected through mca_sched, installed by parsec_init, flow_init run for every stream): (E1) every interleaving with <= b preemptions (quick: b=1 on the three core scripts per module plus module-specific ones, b=2 for the llp writer scripts, lfq push/push and ll ring-vs-steal, 3-thread script for lfq and llp; thorough: all scripts, 2 streams b=2 for all and b=3 for ll/llp, 3 streams b=1 for all and b=2 for ll/llp/gd) of eight 2-3 thread scripts (ring vs steal, foreign push onto stream 0, two writers, minimal push/push, buffer overflow vs steal, re-schedule with distance, communication-thread push, three active streams); (E2) every sequence of schedule(ring shape, distance)/select operations up to depth 3-4 (quick) / 4-5 (thorough) on 2 streams and depth 3 / 4 on 3 streams (alphabet sizes in the leg names: shapes x distances), ring shapes including rings larger than all bounded buffers; the same through the real __parsec_schedule_vp (next_task retention, dispatch to stream 0, NULL submitter) with selection as in __parsec_get_next_task. Oracle: every select returns NULL or a pending task, never a task twice, and a drain of all streams returns every task handed to schedule.',
+    level_text='For each of the 11 scheduler modules (selected through mca_sched, installed by parsec_init, flow_init run for every stream): (E1) every interleaving with <= b preemptions (quick: b=1 on the three core scripts per module plus module-specific ones, b=2 for the llp writer scripts, lfq push/push and ll ring-vs-steal, 3-thread script for lfq and llp; thorough: all scripts, 2 streams b=2 for all and b=3 for ll/llp, 3 streams b=1 for all and b=2 for ll/llp/gd) of eight 2-3 thread scripts (ring vs steal, foreign push onto stream 0, two writers, minimal push/push, buffer overflow vs steal, re-schedule with distance, communication-thread push, three active streams); (E2) every sequence of schedule(ring shape, distance)/select operations up to depth 3-4 (quick) / 4-5 (thorough) on 2 streams and depth 3 (quick) / 4 (thorough) on 3 streams (alphabet sizes in the leg names: shapes x distances), ring shapes including rings larger than all bounded buffers; the same through the real __parsec_schedule_vp (next_task retention, dispatch to stream 0, NULL submitter) with selection as in __parsec_get_next_task. Oracle: every select returns NULL or a pending task, never a task twice, and a drain of all streams returns every task handed to schedule.',
     level_note='Sequential consistency at instrumented accesses to the watched scheduler objects and task links; 2-3 threads, <= 4 operations per thread; select only by the owning thread and foreign schedule only onto stream 0 (the usage contract of scheduling.c); synthetic 2-package hwloc topology; weak-memory effects out of reach.',
 )
 RULE = ("cosched legs: every schedule of the 2-3 thread script with at most b preemptions, scheduling points = instrumented accesses of libparsec to the "
@@ -31,8 +31,8 @@ def check(ctx):
             jobs.append(('seq_%s_k2' % m, seq, ['--sched', m, '--streams', '2', '--config', '3:4:2', '--config', '4:3:1', '--config', '3:3:2:1'], 60))
             jobs.append(('seq_%s_k3' % m, seq, ['--sched', m, '--streams', '3', '--config', '3:3:1', '--config', '2:3:2:1'], 60))
         else:
-            jobs.append(('seq_%s_k2' % m, seq, ['--sched', m, '--streams', '2', '--config', '4:4:3', '--config', '5:5:2', '--config', '4:4:2:1'], 1000))
-            jobs.append(('seq_%s_k3' % m, seq, ['--sched', m, '--streams', '3', '--config', '4:4:2', '--config', '3:3:2:1'], 900))
+            jobs.append(('seq_%s_k2' % m, seq, ['--sched', m, '--streams', '2', '--config', '3:4:2:1', '--config', '5:3:1', '--config', '4:4:3'], 500))
+            jobs.append(('seq_%s_k3' % m, seq, ['--sched', m, '--streams', '3', '--config', '3:3:2:1', '--config', '4:3:2'], 500))
     for m in MODS:
         if quick:
             # quick: bound 1, three core scripts per module (+ the module-specific ones), bound 2 where the lock-free merge / lifo code is
@@ -61,8 +61,8 @@ def check(ctx):
     # the slow ones first
     slow = ('llp', 'lfq', 'll', 'lhq', 'ltq', 'pbq')
     # quick: the cheap sequence legs first (seconds), then the concurrent legs, slow modules first; thorough: concurrent legs first
-    jobs.sort(key=lambda j: ((1 if j[0].startswith('conc') else 0) if quick else (0 if j[0].startswith('conc') else 1), 0 if j[0].split('_')[1] in slow else 1))
-    with ThreadPoolExecutor(max_workers=max(2, vlib.NJOBS // 2)) as ex:
+    jobs.sort(key=lambda j: ((1 if j[0].startswith('conc') else 0) if quick else (0 if j[0].startswith('seq_lhq') else 1 if j[0].startswith('conc') else 2), 0 if j[0].split('_')[1] in slow else 1))
+    with ThreadPoolExecutor(max_workers=max(2, vlib.NJOBS // 2) + (0 if quick else 2)) as ex:
         list(ex.map(one, jobs))
     ctx.legs.sort(key=lambda l: (l.get('leg', ''), l.get('name', '')))
     return ctx.finish(RULE, ["sequential consistency at instrumented accesses (no weak-memory effects)",
